@@ -187,7 +187,7 @@ func genArgs(c *GenCtx) {
 		}
 	}
 	// well-typed calls with boundary values
-	ints := []string{"-2", "-1", "0", "1", "2", "3", "5", "100", "2.0", "2e0", "1.5", "-0", "4611686018427387904", "9223372036854775807", "-9223372036854775808", "9223372036854775808", "1e400"}
+	ints := []string{"-2", "-1", "0", "1", "2", "3", "5", "100", "2.0", "2e0", "1.5", "2.5", "0.5", "-1.5", "1e-1", "-0", "4611686018427387904", "9223372036854775807", "-9223372036854775808", "9223372036854775808", "1e400"}
 	strs := []string{"", "a", "abc", "abcabc", "aaa", "héllo", "€€", "😀x😀", "a b  ", "  a", "\u0301e", "x\ufffdy", "AbC", "ΣΑΣ", "Яя"}
 	pats := []string{"", "a", "b", "bc", "aa", "é", "€", "😀", " ", "x", "l", "ab"}
 	n := c.n(6000, 200000)
@@ -366,6 +366,19 @@ func (c *GenCtx) decimalText() string {
 		sb.WriteString("E+" + strconv.Itoa(r.Intn(30)))
 	}
 	return sb.String()
+}
+
+// results at and beyond the edge of the decimal range, with every sign combination
+func genOverflow(c *GenCtx) {
+	r := c.Rng
+	bigs := []string{"1e6000", "-1e6000", "9e6144", "-9e6144", "1e3100", "-1e3100", "5e6143", "-5e6143", "1e-6000", "-1e-6000", "1e-3100", "2", "-2", "0", "-0", "1e200", "-1e200", "0.5", "-3"}
+	for k := 0; k < c.n(3000, 60000); k++ {
+		a, b := r.Pick(bigs), r.Pick(bigs)
+		doc := `{"a":` + a + `,"b":` + b + `,"arr":[` + a + `,` + b + `,` + r.Pick(bigs) + `]}`
+		e := r.Pick([]string{"a * b", "a / b", "a + b", "a - b", "a // b", "a % b", "sum(arr)", "avg(arr)", "a * b * arr[2]", "a / b / arr[2]", "-a * b", "abs(a) * b", "a * `1e6000`", "`-1e6000` * b",
+			"[a * b]", "{p: a / b}", "to_string(a * b)", "type(a * b)", "a * b == a * b", "max([a * b, a])", "sort([a / b, b])", "ceil(a * b)", "floor(a / b)", "arr[*] | [0] * [1]", "map(&(@ * `1e6000`), arr)"})
+		c.add("overflow", e, doc)
+	}
 }
 
 func genNumbers(c *GenCtx) {
@@ -613,6 +626,46 @@ func genLiterals(c *GenCtx) {
 			c.add("lit-json-num", bt("["+num+", {\"k\": "+num+"}]"), "null")
 		}
 	}
+	// mutations of well-formed literals: trailing junk, deleted / inserted / swapped characters, truncation
+	junk := []string{"]", "}", ",", ":", "x", "1", " 1", "\"", "'", "\\", "[", "{", "`", " ", "]]", "} x", "null", "e", ".", "-"}
+	for k := 0; k < c.n(6000, 150000); k++ {
+		var body, open, close string
+		switch r.Intn(4) {
+		case 0:
+			body, open, close = c.doc(2), "`", "`"
+		case 1:
+			body, open, close = c.decimalText(), "`", "`"
+		case 2:
+			body, open, close = jsonEscape(c, r.Pick(strPool)+r.Pick(litAlphabet), r.Intn(3)), "`", "`"
+			body = strings.ReplaceAll(body, "`", "\\`")
+		default:
+			b := jsonEscape(c, r.Pick(strPool)+r.Pick(litAlphabet), r.Intn(3))
+			body, open, close = b[1:len(b)-1], "\"", "\""
+		}
+		bs := []byte(body)
+		switch r.Intn(6) {
+		case 0:
+			bs = append(bs, r.Pick(junk)...)
+		case 1:
+			if len(bs) > 0 {
+				i := r.Intn(len(bs))
+				bs = append(bs[:i], bs[i+1:]...)
+			}
+		case 2:
+			i := r.Intn(len(bs) + 1)
+			bs = append(bs[:i], append([]byte(r.Pick(junk)), bs[i:]...)...)
+		case 3:
+			if len(bs) > 1 {
+				i, j := r.Intn(len(bs)), r.Intn(len(bs))
+				bs[i], bs[j] = bs[j], bs[i]
+			}
+		case 4:
+			bs = bs[:r.Intn(len(bs)+1)]
+		default:
+			bs = append([]byte(r.Pick(junk)), bs...)
+		}
+		c.add("lit-mutated", open+string(bs)+close, `{"":1,"a":2,"abc":3}`)
+	}
 	// malformed literals must be rejected (C04) — compared with the model's verdict
 	bad := []string{"`\"abc`", "`\"abc\"x`", "`[1,`", "`{\"a\":}`", "`01`", "`1.`", "`.5`", "`+1`", "`tru`", "`nul`", "``", "` `", "`1 2`", "`\"\\x\"`", "`\"\\u12\"`", "`'a'`",
 		"\"\\uD83D\\u!!!!\"", "\"\\uD83Dxu0041\"", "\"\\ud83d\"", "\"\\u12\"", "\"\\x\"", "\"a\tb\"", "\"\"", "'abc", "\"abc", "`abc", "'a\\'", "\"\\uDC00\\uD83D\"", "\"\\ud83d\\ude00\"", "`\"\\ud83d\"`", "`\"\\udc00x\"`"}
@@ -826,6 +879,68 @@ func (c *GenCtx) respell(v string) string {
 	return sb.String()
 }
 
+// nearMiss derives from a JSON text a value that differs from it in one small way (or is equal but reordered /
+// respelled).
+func (c *GenCtx) nearMiss(v string) string {
+	r := c.Rng
+	switch r.Intn(8) {
+	case 0: // rename one key
+		for _, k := range []string{"a", "b", "c"} {
+			if strings.Contains(v, `"`+k+`":`) {
+				return strings.Replace(v, `"`+k+`":`, `"`+r.Pick([]string{"d", "a ", "A", ""})+`":`, 1)
+			}
+		}
+	case 1: // a member becomes null
+		if i := strings.Index(v, `":`); i >= 0 {
+			j := i + 2
+			depth := 0
+			k := j
+			for k < len(v) {
+				ch := v[k]
+				if ch == '[' || ch == '{' {
+					depth++
+				} else if ch == ']' || ch == '}' {
+					if depth == 0 {
+						break
+					}
+					depth--
+				} else if ch == ',' && depth == 0 {
+					break
+				} else if ch == '"' {
+					k++
+					for k < len(v) && v[k] != '"' {
+						if v[k] == '\\' {
+							k++
+						}
+						k++
+					}
+				}
+				k++
+			}
+			if k <= len(v) {
+				return v[:j] + "null" + v[k:]
+			}
+		}
+	case 2: // extra element
+		if strings.HasPrefix(v, "[") && len(v) > 2 {
+			return "[" + r.Pick([]string{"null", "0", `""`, "[]"}) + "," + v[1:]
+		}
+	case 3:
+		return c.respell(v)
+	case 4:
+		return "[" + v + "]"
+	case 5: // null-valued member under another name
+		if strings.HasPrefix(v, "{") && len(v) > 2 {
+			return `{"zz":null,` + v[1:]
+		}
+	case 6:
+		if strings.HasPrefix(v, "{") && len(v) > 2 {
+			return `{"yy":null,` + v[1:]
+		}
+	}
+	return v
+}
+
 func genEquality(c *GenCtx) {
 	r := c.Rng
 	n := c.n(6000, 150000)
@@ -837,7 +952,7 @@ func genEquality(c *GenCtx) {
 		x := c.eqValue(3)
 		y := c.eqValue(3)
 		z := c.eqValue(3)
-		switch r.Intn(5) {
+		switch r.Intn(8) {
 		case 0:
 			y = c.respell(x)
 		case 1:
@@ -845,6 +960,12 @@ func genEquality(c *GenCtx) {
 			z = c.respell(y)
 		case 2:
 			z = x
+		case 3, 4:
+			y = c.nearMiss(x)
+		case 5:
+			x = c.nearMiss(x)
+			y = c.nearMiss(x)
+			z = c.nearMiss(y)
 		}
 		doc := `{"x":` + x + `,"y":` + y + `,"z":` + z + `}`
 		c.add("equality", r.Pick(exprs), doc)
